@@ -25,7 +25,8 @@ RULE = ('Family: project features {find_files, pkg_config(), install+test} x '
         'raises, script aborts with SystemExit(message / code), '
         'rule emission raises (duplicate target), re-configuration of the '
         'build directory with another --prefix (followed by forced '
-        'regenerations)} x '
+        'regenerations and, separately, by the lazy one the build file '
+        'runs)} x '
         '{make, ninja}.  Per pair every mutation event (open-for-write, '
         'close, remove, utime, makedirs, rename) of the regeneration is hit '
         'with every variant (before / trunc / partial / after / raise / a '
